@@ -21,7 +21,14 @@ import (
 // Rng is splitmix64: every random choice of a run derives from VERIF_SEED through it.
 type Rng struct{ s uint64 }
 
-func NewRng(seed uint64) *Rng { return &Rng{s: seed*0x9E3779B97F4A7C15 + 0x1234567} }
+// The initial state is a scrambled function of the seed: with the plain `seed*gamma + c` the stream of seed k+1 was the
+// stream of seed k advanced by one draw, so neighbouring seeds generated almost the same cases.
+func NewRng(seed uint64) *Rng {
+	z := seed*0x9E3779B97F4A7C15 + 0x1234567
+	z = (z ^ (z >> 30)) * 0xBF58476D1CE4E5B9
+	z = (z ^ (z >> 27)) * 0x94D049BB133111EB
+	return &Rng{s: z ^ (z >> 31)}
+}
 
 func (r *Rng) Next() uint64 {
 	r.s += 0x9E3779B97F4A7C15
